@@ -7,7 +7,7 @@ from props.c01_w3 import OPS3, gen_cases_w3, run_w3, check_w3, oracle_w3
 
 PROP = "C01"
 LEVEL = "proof"
-GEN_UNITS = []
+GEN_UNITS = ["GenUtils", "GenUtils2"]     # C01_gather_wrap_dims_generated is stated over the generated gather_wrap_dims
 COQ_TARGETS = ["Props/C01.vo", "Model/C01Harness.vo", "Model/Harness.vo"]
 THEOREM_FILES = ["Props/C01.v"]
 COQ_IMPORTS = ("From Coq Require Import List ZArith Bool.\n"
